@@ -610,8 +610,11 @@ pub open spec fn frame_events(f: Frame) -> Seq<Ev> {
         Frame::UnboundedFollowing => seq![lit("UNBOUNDED FOLLOWING")],
     }
 }
+#[verifier::opaque]
 pub open spec fn win_partition(w: WindowStatement) -> Seq<Ev> { if w.partition_by@.len() > 0 { seq![lit("PARTITION BY ")] + l_exprs(w.partition_by@) } else { Seq::<Ev>::empty() } }
+#[verifier::opaque]
 pub open spec fn win_order(w: WindowStatement) -> Seq<Ev> { if w.order_by@.len() > 0 { seq![lit(" ORDER BY ")] + l_orders(w.order_by@) } else { Seq::<Ev>::empty() } }
+#[verifier::opaque]
 pub open spec fn win_frame(w: WindowStatement) -> Seq<Ev> {
     match w.frame {
         Some(fc) => seq![lit(match fc.r#type { FrameType::Range => " RANGE ", FrameType::Rows => " ROWS " })]
@@ -619,6 +622,38 @@ pub open spec fn win_frame(w: WindowStatement) -> Seq<Ev> {
         None => Seq::<Ev>::empty() }
 }
 pub open spec fn window_events(w: WindowStatement) -> Seq<Ev> { win_partition(w) + win_order(w) + win_frame(w) }
+// sequence bookkeeping as lemmas: the renderer's own query then needs equalities only, no extensional reasoning over an unknown prefix
+pub proof fn lemma_push2(t: Seq<Ev>, a: Ev, b: Ev) ensures t.push(a).push(b) == t + seq![a, b] { assert(t.push(a).push(b) =~= t + seq![a, b]); }
+pub proof fn lemma_push5(t: Seq<Ev>, a: Ev, b: Ev, c: Ev, d: Ev, e: Ev) ensures t.push(a).push(b).push(c).push(d).push(e) == t + seq![a, b, c, d, e]
+{ assert(t.push(a).push(b).push(c).push(d).push(e) =~= t + seq![a, b, c, d, e]); }
+pub proof fn lemma_assoc3(t: Seq<Ev>, a: Seq<Ev>, b: Seq<Ev>, c: Seq<Ev>) ensures t + a + b + c == t + (a + b + c) { assert(t + a + b + c =~= t + (a + b + c)); }
+// the frame clause as the renderer writes it: one push per write (the renderer's own query only unfolds this); that it equals `+ win_frame`
+// and that the three pieces compose is proved once, here
+pub open spec fn win_frame_pushed(t: Seq<Ev>, w: WindowStatement) -> Seq<Ev> {
+    match w.frame {
+        Some(fc) => {
+            let t3 = t.push(lit(match fc.r#type { FrameType::Range => " RANGE ", FrameType::Rows => " ROWS " }));
+            match fc.end { Some(e) => t3.push(lit("BETWEEN ")).push(Ev::FrameEv(fc.start)).push(lit(" AND ")).push(Ev::FrameEv(e)), None => t3.push(Ev::FrameEv(fc.start)) }
+        }
+        None => t,
+    }
+}
+pub proof fn lemma_window_tail(w: WindowStatement, t0: Seq<Ev>, t1: Seq<Ev>, t2: Seq<Ev>, tr: Seq<Ev>)
+    requires t1 == t0 + win_partition(w), t2 == t1 + win_order(w), tr == win_frame_pushed(t2, w)
+    ensures tr == t0 + window_events(w)
+{
+    reveal(win_frame);
+    if w.frame is Some {
+        let fc = w.frame->Some_0;
+        let k = lit(match fc.r#type { FrameType::Range => " RANGE ", FrameType::Rows => " ROWS " });
+        if fc.end is Some { lemma_push5(t2, k, lit("BETWEEN "), Ev::FrameEv(fc.start), lit(" AND "), Ev::FrameEv(fc.end->Some_0)); }
+        else { lemma_push2(t2, k, Ev::FrameEv(fc.start)); }
+    } else {
+        assert(t2 + Seq::<Ev>::empty() =~= t2);
+    }
+    assert(tr == t2 + win_frame(w));
+    lemma_assoc3(t0, win_partition(w), win_order(w), win_frame(w));
+}
 ''', "render::window-spec", props=P)
     u.emit("pub struct DfltWin;\nimpl DfltWin {\n")
     u.spec(abstract("prepare_simple_expr", "x: &SimpleExpr", "Ev::Expr(*x)") + abstract("prepare_order_expr", "x: &OrderExpr", "Ev::Order(*x)")
@@ -637,11 +672,15 @@ pub open spec fn window_events(w: WindowStatement) -> Seq<Ev> { win_partition(w)
          proofs={"body-start": "let ghost t0 = sql.tr();",
                  "before#1:let mut first = true;": "let ghost tp = sql.tr();\nproof { lemma_l_exprs_empty(window.partition_by@); assert(tp + Seq::<Ev>::empty() =~= tp); }",
                  "loop1-end": "proof { lemma_l_exprs_step(window.partition_by@, it1.index@ as int); }",
-                 "before#1:if !window.order_by.is_empty()": "let ghost t1 = sql.tr();\nproof { lemma_l_exprs_empty(window.partition_by@); assert(t1 =~= t0 + win_partition(*window)); }",
+                 "before#1:if !window.order_by.is_empty()": "let ghost t1 = sql.tr();\nproof { assert(t1 =~= t0 + win_partition(*window)) by { reveal(win_partition); lemma_l_exprs_empty(window.partition_by@); } }",
                  "before#2:let mut first = true;": "let ghost to = sql.tr();\nproof { lemma_l_orders_empty(window.order_by@); assert(to + Seq::<Ev>::empty() =~= to); }",
                  "loop2-end": "proof { lemma_l_orders_step(window.order_by@, it2.index@ as int); }",
-                 "before#1:if let Some(frame) = &window.frame": "let ghost t2 = sql.tr();\nproof { lemma_l_orders_empty(window.order_by@); assert(t2 =~= t1 + win_order(*window)); }",
-                 "body-end": "proof { assert(sql.tr() =~= t2 + win_frame(*window)); assert(sql.tr() =~= t0 + window_events(*window)); }"})
+                 "before#1:if let Some(frame) = &window.frame": "let ghost t2 = sql.tr();\nproof { assert(t2 =~= t1 + win_order(*window)) by { reveal(win_order); lemma_l_orders_empty(window.order_by@); } }",
+                 # (case by case: the single `=~=` over all frame shapes was the unit's most expensive and least stable query)
+                 "body-end": """proof {
+    assert(sql.tr() == win_frame_pushed(t2, *window));
+    lemma_window_tail(*window, t0, t1, t2, sql.tr());
+}"""})
     u.emit("}\n")
     # ---- upsert and RETURNING ---------------------------------------------------------------------------------------------------
     # grammar: PostgreSQL / SQLite  ON CONFLICT [ (target) [WHERE ..] ] action [WHERE ..]  - the target filter BEFORE the action, the
